@@ -231,6 +231,7 @@ impl<'w> Ctx<'w> {
                         ("u8", "MAX") => return Ok(e("255", Ty::U(8))),
                         ("u32", "MAX") => return Ok(e("4294967295", Ty::U(32))),
                         ("u64", "MAX") | ("usize", "MAX") => return Ok(e("18446744073709551615", Ty::U(64))),
+                        ("Bound", "Unbounded") => return Ok(e("Bound.unbounded", Ty::Bound(Box::new(Ty::Any)))),
                         ("Ordering", "Equal") => return Ok(e("Ordering.eq", Ty::Ordering)),
                         ("Ordering", "Less") => return Ok(e("Ordering.lt", Ty::Ordering)),
                         ("Ordering", "Greater") => return Ok(e("Ordering.gt", Ty::Ordering)),
@@ -531,6 +532,12 @@ impl<'w> Ctx<'w> {
         };
         if f.path.segments.len() == 1 {
             if let Some(v) = self.lookup(&f.path.segments[0].ident.to_string()) {
+                if let Ty::FnOnce1(a, r) = v.ty.clone() {
+                    if c.args.len() != 1 { return Err("closure call arity".into()); }
+                    let x = self.expr(&c.args[0])?;
+                    if self.resolve(&x.ty) != *a { return Err(format!("closure argument of type {:?}", x.ty)); }
+                    return Ok(E { s: format!("(← {} {})", v.lean, paren(&x.s)), ty: *r, eff: true });
+                }
                 if let Ty::FnMut1(a, r) = v.ty.clone() {
                     // `(mov)(&mut place)`: apply the function, store the handed-back argument
                     if c.args.len() != 1 { return Err("closure call arity".into()); }
@@ -612,6 +619,11 @@ impl<'w> Ctx<'w> {
                 if self.resolve(&d.ty) != Ty::Bytes { return Err("codec argument types".into()); }
                 self.used_xcompress = true;
                 Ok(E { s: format!("(← liftCompress (xcompress \"{}\" {} {}))", codec, paren(&lvl.s), paren(&d.s)), ty: Ty::Res(Box::new(Ty::Bytes)), eff: true })
+            }
+            "Bound::Included" | "Bound::Excluded" if c.args.len() == 1 => {
+                let a = self.expr(&c.args[0])?;
+                let ctor = if name.ends_with("Included") { "included" } else { "excluded" };
+                Ok(E { s: format!("(Bound.{} {})", ctor, paren(&a.s)), ty: Ty::Bound(Box::new(a.ty)), eff: a.eff })
             }
             "Vec::new" => Ok(e("[]", Ty::Any)),
             "BinaryHeap::new" => Ok(e("[]", Ty::Heap(Box::new(Ty::Any)))),
@@ -704,6 +716,22 @@ impl<'w> Ctx<'w> {
             all.push((a, p.clone()));
         }
         for (a, (pty, by_mut)) in &all {
+            if let (Ty::FnOnce1(at, rt), Expr::Closure(cl)) = (pty, strip_ref(a)) {
+                // a pure closure over a by-value argument: `fun x => do pure body`
+                if cl.inputs.len() != 1 { return Err("closure arity".into()); }
+                self.vars.push(BTreeMap::new());
+                let mut al = BTreeMap::new();
+                let pat = self.pattern(&cl.inputs[0], at, None, &mut al);
+                self.mut_pat_binds.clear();
+                let npre = self.pre.len();
+                let body = pat.and_then(|p| self.expr(&cl.body).map(|b| (p, b)));
+                self.vars.pop();
+                let (pat, body) = body?;
+                if self.pre.len() != npre { return Err("closure body with statements".into()); }
+                if self.resolve(&body.ty) != **rt { return Err(format!("closure returns {:?}, expected {:?}", body.ty, rt)); }
+                argv.push(format!("(fun {} => do pure {})", pat, paren(&body.s)));
+                continue;
+            }
             if let (Ty::FnMut1(at, rt), Expr::Closure(cl)) = (pty, strip_ref(a)) {
                 argv.push(self.closure_arg(cl, at, rt)?);
                 continue;
